@@ -62,11 +62,61 @@ def gen_cases(tier, seed):
     n = 120 if tier == "quick" else 8000
     for i in range(n):
         yield {"kind": "history", "seed": r.randrange(1 << 30), "files": 1 if i % 3 else 2, "length": r.randint(5, 40)}
+    for n_iso in ([99, 100, 101, 130] if tier == "quick" else [1, 50, 99, 100, 101, 130, 199, 200, 201, 333, 1000]):
+        yield {"kind": "bulk", "seed": r.randrange(1 << 30), "n": n_iso}
 
 
 def run_case(case, ctx):
     ctx.count("case_kinds", case["kind"])
+    if case["kind"] == "bulk":
+        return _run_bulk(case, ctx)
     _run_history(case, ctx)
+
+
+def _run_bulk(case, ctx):
+    """A store holding many isotherms: everything uploaded comes back, with and without criteria."""
+    import pygaps
+    from pygaps.parsing import sqlite as S
+    from pygaps.core.baseisotherm import BaseIsotherm
+    r = gen.rng(case["seed"], "bulk")
+    n = case["n"]
+    db = dbtools.fresh_db("bulk-%d" % case["seed"])
+    mark = (len(pygaps.MATERIAL_LIST), len(pygaps.ADSORBATE_LIST))
+    try:
+        mats = ["verif-bulk-P", "verif-bulk-Q"]
+        ids = {}
+        for i in range(n):
+            kw = dict(gen.DEFAULT_UNITS, material=mats[i % 2], adsorbate="nitrogen", temperature=round(100 + i * 0.25, 2))
+            if i % 10 == 0:
+                iso = pygaps.PointIsotherm(pressure=[0.1, 0.2 + i * 1e-3, 0.5], loading=[1.0, 2.0, 3.0 + i * 1e-3], branch="ads", **kw)
+            else:
+                iso = BaseIsotherm(**kw)
+            out = _call(S.isotherm_to_db, iso, db_path=db, autoinsert_material=True, verbose=False)
+            if out[0] != "ok":
+                ctx.violation("bulk/upload-refused", "upload of a distinct isotherm into a large store was refused", i=i, exc=out[1])
+                return
+            ids[(mats[i % 2], round(100 + i * 0.25, 2))] = mats[i % 2]  # (what identifies an item here: material and temperature)
+        raw = dbtools.dump(db)
+        ctx.case(["bulk", n, "rows"])
+        if len(raw["isotherms"]) != n:
+            ctx.violation("bulk/rows-in-file", "the file does not hold one row per uploaded isotherm", rows=len(raw["isotherms"]), uploaded=n)
+        for crit, exp in ((None, set(ids)), ({"material": mats[0]}, {k for k, v in ids.items() if v == mats[0]}), ({"material": mats[1], "adsorbate": "nitrogen"}, {k for k, v in ids.items() if v == mats[1]})):
+            out = _call(S.isotherms_from_db, criteria=crit, db_path=db, verbose=False)
+            ctx.case(["bulk", n, repr(crit)])
+            ctx.count("bulk", "n=%d/%s" % (n, "all" if crit is None else "+".join(sorted(crit))))
+            if out[0] != "ok":
+                ctx.violation("bulk/retrieval-raises", "retrieval from a large store raised", n=n, criteria=crit, exc=out[1])
+                continue
+            got = {(str(i.material), round(float(i.temperature), 2)) for i in out[1]}
+            if got != exp or len(out[1]) != len(exp):
+                ctx.violation("bulk/retrieved-set", "what is retrieved from a large store is not what was uploaded", n=n, criteria=crit, retrieved=len(out[1]), expected=len(exp), missing=len(exp - got), unexpected=len(got - exp))
+    finally:
+        del pygaps.MATERIAL_LIST[mark[0]:]
+        del pygaps.ADSORBATE_LIST[mark[1]:]
+        try:
+            os.unlink(db)
+        except OSError:
+            pass
 
 
 # ------------------------------------------------------------------ items
@@ -95,8 +145,9 @@ def _mat_spec(r, k):
 def _iso_spec(r, variant):
     kind = r.choice(["point", "point", "point-des", "model", "base"])
     meta = {}
-    for key in r.sample(["user", "lab", "project", "note", "flag", "reading"], r.randint(0, 4)):
-        meta[key] = {"user": "someone", "lab": "lab 7", "project": "p-x", "note": "texte libre", "flag": r.random() < 0.5, "reading": round(r.uniform(-5, 5), 4) + 0.0}[key]  # (+0.0: no negative zero, SQLite does not keep its sign)
+    for key in r.sample(["user", "lab", "project", "note", "flag", "reading", "count", "code"], r.randint(0, 4)):
+        meta[key] = {"user": "someone", "lab": "lab 7", "project": "p-x", "note": "texte libre", "flag": r.random() < 0.5, "reading": round(r.uniform(-5, 5), 4) + 0.0,  # (+0.0: no negative zero, SQLite does not keep its sign)
+                     "count": r.randint(-3, 40), "code": str(r.randint(1, 99))}[key]
     spec = {"kind": kind, "material": r.choice(MAT_NAMES), "adsorbate": r.choice(ADS_NAMES), "temperature": round(r.uniform(70, 400), 2), "meta": meta, "variant": variant}
     if r.random() < 0.35:
         # stored in degrees Celsius (the value in the file is the one in the isotherm's own unit)
@@ -151,12 +202,27 @@ def _build_iso(spec):
 # ------------------------------------------------------------------ dictionary model
 
 
+def _same_number_other_type(a, b):
+    """5 -> 5.0 or '7' -> 7.0: what a REAL-affinity column does to integers and numeric-looking text."""
+    if isinstance(a, bool) or isinstance(b, bool) or type(a) is type(b):
+        return False
+    try:
+        return float(a) == float(b)
+    except (TypeError, ValueError):
+        return False
+
+
 def _stored(v, iso=False):
     """How a property value reads back from a REAL-affinity column."""
     if isinstance(v, bool):
         return ("TRUE" if v else "FALSE") if iso else float(v)
     if isinstance(v, (int, float)):
         return float(v)
+    if isinstance(v, str):
+        try:
+            return float(v)  # numeric-looking text is converted by the column affinity as well
+        except ValueError:
+            return v
     return v
 
 
@@ -283,13 +349,13 @@ def _run_history(case, ctx):
                 expected = model.item_to_db("materials", spec["name"], spec["props"], ow, "material_properties_type")
                 out = _call(S.material_to_db, _build_mat(spec), db_path=db, overwrite=ow, verbose=False)
             elif op == "ads_del":
-                name = r.choice(ADS_NAMES + ["verif-gas-absent"])
+                name = r.choice(ADS_NAMES + ["verif-gas-absent", ADS_NAMES[0].upper(), ADS_NAMES[1].lower()])  # (names are case-sensitive in the store)
                 by_obj = r.random() < 0.5
                 rec.update(name=name, by_object=by_obj)
                 expected = model.item_delete("adsorbates", name, "adsorbate")
                 out = _call(S.adsorbate_delete_db, pygaps.Adsorbate(name) if by_obj else name, db_path=db, verbose=False)
             elif op == "mat_del":
-                name = r.choice(MAT_NAMES + ["verif-solid-absent"])
+                name = r.choice(MAT_NAMES + ["verif-solid-absent", MAT_NAMES[0].upper(), MAT_NAMES[1].lower()])
                 by_obj = r.random() < 0.5
                 rec.update(name=name, by_object=by_obj)
                 expected = model.item_delete("materials", name, "material")
@@ -330,8 +396,11 @@ def _run_history(case, ctx):
                         continue
                     if stored_id != target.iso_id and stored_id in uploaded:
                         a, b = uploaded[stored_id], target.to_dict()
-                        rec["id_differs_in"] = sorted(k for k in set(a) | set(b) if a.get(k) != b.get(k))
+                        rec["id_differs_in"] = sorted(k for k in set(a) | set(b) if a.get(k) != b.get(k) or type(a.get(k)) is not type(b.get(k)))
                         rec["material_then_now"] = [a.get("material"), b.get("material")]
+                        nt = [k for k in rec["id_differs_in"] if _same_number_other_type(a.get(k), b.get(k))]
+                        # (material properties re-attached from the session registry may differ on top of it: the other recorded mechanism)
+                        rec["number_type_only"] = bool(nt) and set(rec["id_differs_in"]) - set(nt) <= {"material"}
                     expected = model.iso_delete(stored_id)
                     out = _call(S.isotherm_delete_db, target, db_path=db, verbose=False)
                 else:
@@ -426,6 +495,10 @@ def _judge(ctx, rec, out, expected, model, before, db, extra_check, history):
                 key = "iso_to/autoinsert-decided-by-session-registry-not-by-file"
         if op == "iso_to" and expected == "refused" and got == "ok":
             key = "iso_to/predicted-refused-but-ok"
+        if op == "iso_del" and rec.get("number_type_only"):
+            # the metadata value column has REAL affinity: integers and numeric-looking text come back as floats, the retrieved
+            # isotherm has another identifier than the stored one and cannot be deleted through
+            key = "iso_del/retrieved-id-differs/metadata-number-type-changed-by-REAL-column"
         if op == "iso_del" and rec.get("id_differs_in") == ["material"]:  # (outcome differs)
             # the isotherm id covers the material's *properties*, which are not part of the isotherm row: they are
             # re-attached on retrieval from whatever the session registry holds for that name
@@ -466,14 +539,24 @@ def _judge(ctx, rec, out, expected, model, before, db, extra_check, history):
             key = "iso_get/retrieved-not-equal-to-stored"
             info = {}
             if cand:
-                a, b = iso.to_dict(), cand[0].to_dict()
+                a = iso.to_dict()
+
+                def _distance(c):
+                    bb = c.to_dict()
+                    return len(set(bb) ^ set(a)) + sum(1 for k in a if k in bb and (a[k] != bb[k] or type(a[k]) is not type(bb[k])))
+
+                cand.sort(key=_distance)  # the stored copy of this isotherm is the closest one (there may be other data-less isotherms)
+                b = cand[0].to_dict()
                 extra_keys = sorted(set(b) - set(a))
-                diff_keys = sorted(k for k in a if k in b and a[k] != b[k])
+                diff_keys = sorted(k for k in a if k in b and (a[k] != b[k] or type(a[k]) is not type(b[k])))
                 info = {"extra_keys": extra_keys, "diff_keys": diff_keys, "missing_keys": sorted(set(a) - set(b))}
                 if extra_keys == ["iso_type"] and not diff_keys and not info["missing_keys"]:
                     key = "iso_get/iso_type-column-returned-as-metadata"
                 elif hasattr(iso, "data_raw") and list(iso.data_raw["branch"]) != list(cand[0].data_raw["branch"]):
                     key = "iso_get/branch-marks-not-stored"
+                elif diff_keys and not extra_keys and not info["missing_keys"] and all(_same_number_other_type(a[k], b[k]) for k in diff_keys):
+                    # REAL affinity of the metadata value column: 5 -> 5.0, '7' -> 7.0; the identifier covers the type
+                    key = "iso_get/retrieved-not-equal/metadata-number-type-changed-by-REAL-column"
             ctx.violation(key, "an uploaded isotherm does not come back equal", rec=rec, **info)
     elif what == "retrieved":
         crit = arg or {}
